@@ -44,7 +44,7 @@ MUTANTS = {
             return chart + [last_chart]""")]),
  "M04_plain_order_max": dict(prop=["C02"], needs="an agenda tie between (span d, top unary bucket) and (span d+1, bucket 0) popped in the wrong order: set-order / hash-seed dependent",
     edits=[(E, "        self.ORDER_MAX = 1 + max(self.order.values())", "        self.ORDER_MAX = max(self.order.values())")]),
- "M05_reenqueue_completed": dict(prop=["C02", "C04", "C05"], needs="a completed item that receives a contribution after it was popped (ambiguity through unary chains)",
+ "M05_reenqueue_completed": dict(prop=["C02"], silent=True, needs="EQUIVALENT on the correct tree: a completed item only receives a contribution after it was popped if the agenda order is wrong",
     edits=[(E, """            else:
                 col.c_chart[item] = was + value
 
